@@ -77,6 +77,8 @@ func init() {
 		{Pkg: v, Func: "(*verifier).VerifyBlob"},
 		// &outcome.EnvelopeContent.SignerInfo (verifier/verifier.go:652), attr.Key of type any, stores through
 		// pointers found in outcome.VerificationResults (:686) and through the parameter outcome (:707)
+		{Pkg: v, Func: "extractCriticalStringExtendedAttribute", Oracle: true}, // attr.Value.(string), helpers.go:101
+		{Pkg: v, Func: "getVerificationPlugin"},
 		{Pkg: v, Func: "processPluginResponse"},
 		// multi-method interface pluginframework.VerifyPlugin, attr.Key.(string) (verifier/verifier.go:926, 938)
 		{Pkg: v, Func: "executePlugin"},
